@@ -905,7 +905,14 @@ void AbstractDOMParser::endElement( const   XMLElementDecl&
     	XIncludeUtils xiu((XMLErrorReporter *) this);
 	    // process the XInclude node, then update the fCurrentNode with the new content
 	    if(xiu.parseDOMNodeDoingXInclude(fCurrentNode, fDocument, getScanner()->getEntityHandler()))
+        {
+            // the include may have been replaced by nothing (empty fallback)
+            // and have been the only child: fall back to the parent, as after
+            // its start tag
             fCurrentNode = fCurrentParent->getLastChild();
+            if (fCurrentNode == 0)
+                fCurrentNode = fCurrentParent;
+        }
     }
 }
 
